@@ -2208,3 +2208,34 @@ impl TypeChecker {
         self.name_generator.verif_c02_counter()
     }
 }
+
+// verification hook (property C17): struct definitions of the session as sorted text lines
+#[cfg(feature = "verif")]
+impl TypeChecker {
+    pub(crate) fn verif_c17_structs(&self) -> Vec<String> {
+        let mut v: Vec<String> = self
+            .structs
+            .iter()
+            .map(|(name, info)| {
+                let params = match &info.kind {
+                    typed_ast::StructKind::Definition(ps) => ps
+                        .iter()
+                        .map(|(_, p, b)| format!("{p}{}", if b.is_some() { ":Dim" } else { "" }))
+                        .collect::<Vec<_>>()
+                        .join(","),
+                    typed_ast::StructKind::Instance(_) => "?instance".to_string(),
+                };
+                format!(
+                    "struct {name}<{params}> {{{}}}",
+                    info.fields
+                        .iter()
+                        .map(|(f, (_, t))| format!("{f}: {t}"))
+                        .collect::<Vec<_>>()
+                        .join(", ")
+                )
+            })
+            .collect();
+        v.sort();
+        v
+    }
+}
